@@ -40,6 +40,7 @@ from harness import simnet as S
 from harness.simworld import run_scenario
 
 PROBE_PREFIX = "probe"
+WORKER_CALLER_BASE = 100      # the worker thread of object o, when it makes calls itself, is caller number 100 + o
 _PROBE = None
 
 
@@ -68,6 +69,7 @@ def probe_classes():
         def _probe_init(self, oid):
             self._oid = oid
             self._inside = 0
+            self._peers = {}
             RUN.live[oid] = self
 
         @rpc_method
@@ -78,6 +80,49 @@ def probe_classes():
             depth = self._inside
             for _ in range(spin):      # a method that takes a while: stays "in progress" for `spin` more scheduler steps
                 D.SCHED.yield_point("probe.park")
+            mark = (c, via, seq)
+            self._inside -= 1
+            _log("exit", me, self._oid, c, via, seq, depth)
+            return mark
+
+        @rpc_method
+        def relay(self, c, via, seq, plan):
+            """a method of this object that itself makes calls — to other objects and to its OWN object — through proxies:
+            the caller of those calls is this object's worker thread.  plan = [[kind, target object, sub-plan], …] with
+            kind n = non-blocking, t = blocking with a short rpc_timeout (a blocking call to one's own object can only end
+            by that timeout); a non-empty sub-plan makes the callee relay in turn."""
+            me = _me()
+            _log("enter", me, self._oid, c, via, seq)
+            self._inside += 1
+            depth = self._inside
+            wid = WORKER_CALLER_BASE + self._oid
+            k = RUN.homes[self._oid]
+            for kind, tgt, sub in plan:
+                n = None
+                try:
+                    if tgt not in self._peers:
+                        self._peers[tgt] = self._context.get_rpc_object_by_name(f"c{RUN.homes[tgt]}.{PROBE_PREFIX}{tgt}")
+                    p = self._peers[tgt]
+                    n = RUN.wseq[(wid, k, tgt)]
+                    RUN.wseq[(wid, k, tgt)] += 1
+                    g = RUN.wseq[("g", wid, tgt)]
+                    RUN.wseq[("g", wid, tgt)] += 1
+                    RUN.n_calls += 1
+                    _log("call", wid, k, tgt, n, "relay-" + kind, g)
+                    RUN.intent[_rt.get_ident()] = (wid, k, tgt, n)
+                    tq = p.rpc_nonblocking if kind == "n" else p
+                    kw = {} if kind == "n" else {"rpc_timeout": 0.5}
+                    if sub:
+                        tq.relay(wid, k, n, sub, **kw)
+                    else:
+                        tq.hit(wid, k, n, **kw)
+                    _log("result", wid, (wid, k, tgt, n), "ok")
+                except D.SchedAbort:
+                    raise
+                except Exception as e:  # noqa   (timeout of a blocking self-call, object locked / being removed)
+                    if n is not None:
+                        _log("result", wid, (wid, k, tgt, n), "timeout" if type(e).__name__ == "QMI_RpcTimeoutException"
+                             else "error-in-relay")
             mark = (c, via, seq)
             self._inside -= 1
             _log("exit", me, self._oid, c, via, seq, depth)
@@ -120,7 +165,8 @@ def probe_classes():
             self._probe_init(oid)
 
     _PROBE = {"obj": Probe, "instr": ProbeInstr,
-              "traced": [_ProbeMethods.hit, _ProbeMethods.peer, _ProbeMethods.touch, _ProbeMethods.release_rpc_object]}
+              "traced": [_ProbeMethods.hit, _ProbeMethods.peer, _ProbeMethods.touch, _ProbeMethods.release_rpc_object,
+                         _ProbeMethods.relay]}
     return _PROBE
 
 
@@ -145,6 +191,55 @@ class _MThread(_rt.Thread):
         s._join_thread(self, timeout, _rt.Thread.join)
 
 
+class _MTimer(_MThread):
+    """`threading.Timer` under the scheduler (virtual clock)"""
+
+    def __init__(self, interval, function, args=None, kwargs=None):
+        super().__init__(daemon=True)
+        self.interval, self.function = interval, function
+        self.args, self.kwargs = (args or []), (kwargs or {})
+        self._cancelled = False
+
+    def cancel(self):
+        self._cancelled = True
+
+    def run(self):
+        D.TIME_SHIM.sleep(self.interval)
+        if not self._cancelled:
+            self.function(*self.args, **self.kwargs)
+
+
+class _MExecutor:
+    """`concurrent.futures.ThreadPoolExecutor` under the scheduler: every submitted job runs in a managed thread of its
+    own (a pool with enough workers), so that jobs run concurrently and in any order, as with a real pool."""
+
+    def __init__(self, *a, **kw):
+        pass
+
+    def submit(self, fn, *args, **kwargs):
+        import concurrent.futures as cf
+        fut = cf.Future()
+
+        def job():
+            try:
+                fut.set_result(fn(*args, **kwargs))
+            except D.SchedAbort:
+                raise
+            except BaseException as e:  # noqa
+                fut.set_exception(e)
+        _MThread(target=job, daemon=True).start()
+        return fut
+
+    def shutdown(self, *a, **kw):
+        pass
+
+    def __enter__(self):
+        return self
+
+    def __exit__(self, *a):
+        return False
+
+
 class _RunState:
     """Per-run bookkeeping of the taps (reset by run_impl)."""
 
@@ -153,6 +248,10 @@ class _RunState:
         self.intent = {}     # thread ident -> key of the call the scripted caller is about to make
         self.pending = {}    # thread ident -> key issued, request message not yet seen
         self.live = {}       # object number -> the live RPC object instance (never to be seen by a caller)
+        self.homes = []      # object number -> context number
+        self.n_calls = 0     # scripted calls made so far (by caller threads and by relaying worker threads)
+        self.wseq = collections.Counter()    # per-route issue counters of the calls made by worker threads
+        self.programs = {}   # caller number -> the function a task thread / event-loop callback runs
 
 
 RUN = _RunState()
@@ -501,16 +600,27 @@ def taps():
 
     patch(R.RpcObjectManager, "start", om_start)
 
-    had_thread = "Thread" in D.THREADING_SHIM.__dict__
-    old_thread = D.THREADING_SHIM.__dict__.get("Thread")
+    # threads the code under test may create that the scheduler does not adopt by itself (work-around in this module):
+    # threading.Thread / threading.Timer as seen by the qmi modules, the executor of the simulated event loop, and
+    # concurrent.futures.ThreadPoolExecutor
+    import concurrent.futures as _cf
+
+    def run_in_executor(self, executor, fn, *args):
+        return (executor if executor is not None else _MExecutor()).submit(fn, *args)
+
+    patch(S.SimLoop, "run_in_executor", run_in_executor)
+    patch(_cf, "ThreadPoolExecutor", _MExecutor)
+    shim_saved = {n: D.THREADING_SHIM.__dict__.get(n, _ABSENT) for n in ("Thread", "Timer")}
     D.THREADING_SHIM.Thread = _MThread
+    D.THREADING_SHIM.Timer = _MTimer
     try:
         yield
     finally:
-        if had_thread:
-            D.THREADING_SHIM.Thread = old_thread
-        else:
-            del D.THREADING_SHIM.__dict__["Thread"]
+        for n, v in shim_saved.items():
+            if v is _ABSENT:
+                D.THREADING_SHIM.__dict__.pop(n, None)
+            else:
+                setattr(D.THREADING_SHIM, n, v)
         for obj, name, old in reversed(saved):
             if old is _ABSENT:
                 delattr(obj, name)
@@ -522,8 +632,8 @@ def taps():
 # scenarios
 # ---------------------------------------------------------------------------
 
-CALL_KINDS = ("b", "n", "k", "t", "g", "gn", "s", "sn", "q", "L", "U", "F", "P", "E", "X")      # everything that is a request to the object
-NONBLOCKING = ("n", "k", "gn", "sn")
+CALL_KINDS = ("b", "n", "k", "t", "R", "Rn", "g", "gn", "s", "sn", "q", "L", "U", "F", "P", "E", "X")      # everything that is a request to the object
+NONBLOCKING = ("n", "k", "Rn", "gn", "sn")
 
 
 def op_via(cal, op) -> int:
@@ -533,7 +643,21 @@ def op_via(cal, op) -> int:
 
 def op_size(op) -> int:
     """target size in bytes of the serialised request frame of a `hit` call (0 = tiny call, no payload)"""
-    return op[3] if len(op) > 3 else 0
+    return op[3] if len(op) > 3 and isinstance(op[3], int) else 0
+
+
+def op_plan(op):
+    """the relay plan of an R / Rn op: [[kind, target object, sub-plan], …]"""
+    return op[3] if len(op) > 3 and isinstance(op[3], list) else []
+
+
+def plan_edges(homes, o, plan):
+    """(context of the calling worker, target object) pairs a relay plan needs connections / descriptors for"""
+    out = set()
+    for kind, tgt, sub in plan:
+        out.add((homes[o], tgt))
+        out |= plan_edges(homes, tgt, sub)
+    return out
 
 
 _SIZES = None
@@ -668,7 +792,21 @@ def gen_scenario(rng, big: bool = False) -> dict:
                 for _ in range(rng.randint(1, 2)):
                     sized.append([rng.choice(["n", "n", "gn", "q", "b"]), o, via])
             prog = sized + prog[:4]
-        callers.append({"ctx": k, "prog": prog, "acq": rng.choice(["desc", "desc", "made", "byname"])})
+        if rng.random() < 0.12:
+            # a method of an object that makes calls itself (worker thread as caller): to another object and to its own,
+            # non-blocking first, then blocking with a short timeout; sometimes nested two deep
+            o = pick_obj()
+            other = rng.randrange(n_obj)
+            plan = [["n", o, []], ["n", other, [["n", o, []], ["t", other, []]] if rng.random() < 0.4 else []],
+                    ["t", o if rng.random() < 0.6 else other, []]]
+            rng.shuffle(plan)
+            rop = mk(rng.choice(["R", "Rn"]), o)
+            if len(rop) == 2:
+                rop.append(None)
+            rop.append(plan[:rng.randint(1, 3)])
+            prog = prog[:5] + [rop] + prog[5:8]
+        callers.append({"ctx": k, "prog": prog, "acq": rng.choice(["desc", "desc", "made", "byname"]),
+                        "kind": rng.choice(["thread"] * 6 + ["task", "loop"])})
     removals = []
     if rng.random() < 0.25:
         for o in range(n_obj):
@@ -703,7 +841,10 @@ def sanitize(scn) -> dict:
                 held[o] = (kind == "L")
                 op = op[:2]
             prog.append(list(op))
-        out.append({"ctx": cal["ctx"], "prog": prog, "acq": cal.get("acq", "desc")})
+        kind = cal.get("kind", "thread")
+        if kind == "loop":       # a callback in the event-loop thread must not block: non-blocking calls only, nobody waits
+            prog = [op for op in prog if op[0] in NONBLOCKING]
+        out.append({"ctx": cal["ctx"], "prog": prog, "acq": cal.get("acq", "desc"), "kind": kind})
     locks = any(op[0] in ("L", "U", "F") for c in out for op in c["prog"])
     if locks:
         for c in out:
@@ -737,7 +878,13 @@ def make_body(scn):
                 own_proxy[o] = ctxs[h].make_instrument(f"{PROBE_PREFIX}{o}", PC["instr"], o)
             else:
                 own_proxy[o] = ctxs[h].make_rpc_object(f"{PROBE_PREFIX}{o}", PC["obj"], o)
-        need = sorted({(op_via(c, op), op[1]) for c in scn["callers"] for op in c["prog"] if op[0] in CALL_KINDS})
+        RUN.homes = list(homes)
+        need = {(op_via(c, op), op[1]) for c in scn["callers"] for op in c["prog"] if op[0] in CALL_KINDS}
+        for c in scn["callers"]:
+            for op in c["prog"]:
+                if op[0] in ("R", "Rn"):
+                    need |= plan_edges(homes, op[1], op_plan(op))
+        need = sorted(need)
         connected = set()
         desc = {}
         for k, o in need:
@@ -748,7 +895,6 @@ def make_body(scn):
             desc[(k, o)] = ctxs[k].make_peer_context_proxy(f"c{h}").get_rpc_object_descriptor(f"{PROBE_PREFIX}{o}")
         _log("setup-done")
         w.sched.eager_timeouts = float(scn.get("eager", 0.0))     # only while the callers run (not during the handshakes)
-        n_calls = [0]
         shared = {(k, o): ctxs[k].make_proxy(desc[(k, o)]) for (k, o) in need} if scn.get("share") else None
 
         def note_target(ci, how, k, o, x):
@@ -793,7 +939,7 @@ def make_body(scn):
                 return None
 
             def check(kind, k, o, seq, r):
-                if kind in ("b", "n", "k", "t"):
+                if kind in ("b", "n", "k", "t", "R", "Rn"):
                     return tuple(r) == (ci, k, seq)
                 if kind in ("g", "gn"):
                     return r == f"{PROBE_PREFIX}{o}"
@@ -865,7 +1011,7 @@ def make_body(scn):
                     nxt[(k, o)] += 1
                     gseq = gnxt[o]
                     gnxt[o] += 1
-                    n_calls[0] += 1
+                    RUN.n_calls += 1
                     _log("call", ci, k, o, seq, kind, gseq)
                     RUN.intent[me] = (ci, k, o, seq)
                     p = px[(k, o)]
@@ -875,6 +1021,7 @@ def make_body(scn):
                             sz = op_size(op)
                             fut = (nb.hit(ci, k, seq, 0, blob_for(p, k, o, seq, 0, sz)) if kind == "n"
                                    else nb.hit(ci, k, seq, 40, blob_for(p, k, o, seq, 40, sz)) if kind == "k"
+                                   else nb.relay(ci, k, seq, op_plan(op)) if kind == "Rn"
                                    else nb.get_name() if kind == "gn" else nb.get_signals())
                             futs.append([fut, (kind, k, o, seq), False])
                         except D.SchedAbort:
@@ -885,6 +1032,7 @@ def make_body(scn):
                     sz = op_size(op)
                     fn = {"b": lambda: p.hit(ci, k, seq, 0, blob_for(p, k, o, seq, 0, sz)),
                           "n": lambda: p.hit(ci, k, seq), "k": lambda: p.hit(ci, k, seq, 40),
+                          "R": lambda: p.relay(ci, k, seq, op_plan(op)), "Rn": lambda: p.relay(ci, k, seq, op_plan(op)),
                           "t": lambda: p.hit(ci, k, seq, 0, blob_for(p, k, o, seq, 0, sz), rpc_timeout=0.001),
                           "g": lambda: p.get_name(), "gn": lambda: p.get_name(), "s": lambda: p.get_signals(),
                           "sn": lambda: p.get_signals(), "q": lambda: p.is_locked(),
@@ -906,11 +1054,39 @@ def make_body(scn):
                 return []
             return run
 
-        ths = [w.spawn(caller_fn(ci, cal), f"caller{ci}") for ci, cal in enumerate(scn["callers"])]
+        # the callers: plain threads, QMI task threads, callbacks running in the event-loop thread of a context
+        from qmi.core.task import QMI_Task
+
+        class CallerTask(QMI_Task):
+            def __init__(self, task_runner, name, ci):
+                super().__init__(task_runner, name)
+                self._ci = ci
+
+            def run(self):
+                loose[self._ci] = RUN.programs[self._ci]()
+
+        loose, ths, tasks = {}, [], []
+        for ci, cal in enumerate(scn["callers"]):
+            fn = caller_fn(ci, cal)
+            kind = cal.get("kind", "thread")
+            if kind == "task":
+                RUN.programs[ci] = fn
+                tp = ctxs[cal["ctx"]].make_task(f"task{ci}", CallerTask, ci)
+                tp.start()
+                tasks.append(tp)
+            elif kind == "loop":
+                def cb(fn=fn, ci=ci):
+                    loose[ci] = fn()
+                ctxs[cal["ctx"]]._message_router._thread.run_in_thread(cb)
+            else:
+                ths.append(w.spawn(fn, f"caller{ci}"))
         ths += [w.spawn(remover_fn(o, delay), f"remover{o}") for o, delay in scn.get("removals", [])]
         for t in ths:
             t.join()
+        for tp in tasks:
+            tp.join()
         w.sched.eager_timeouts = 0.0
+        D.TIME_SHIM.sleep(0.05)        # let event-loop callers start (fires only when nothing else can run)
 
         def settled():
             return sum(1 for e in w.sched.events if e[0] in ("exec-exit", "reject", "push-refused")
@@ -918,11 +1094,14 @@ def make_body(scn):
 
         # drain: calls nobody waits for are still under way; a timed sleep fires only when nothing else can run
         for _ in range(40):
-            if settled() >= n_calls[0]:
+            if settled() >= RUN.n_calls:
                 break
             D.TIME_SHIM.sleep(0.05)
-        _log("drained", settled(), n_calls[0])
-        return [(t.value, None if t.exc is None else f"{type(t.exc).__name__}: {t.exc}") for t in ths]
+        _log("drained", settled(), RUN.n_calls)
+        n_loose = sum(1 for c in scn["callers"] if c.get("kind", "thread") != "thread")
+        return ([(t.value, None if t.exc is None else f"{type(t.exc).__name__}: {t.exc}") for t in ths]
+                + [(v, None) for v in loose.values()]
+                + [(None, "a task / event-loop caller did not finish")] * (n_loose - len(loose)))
 
     return body
 
@@ -973,6 +1152,8 @@ def to_lines(scn, events):
     lines, outs = ["init"], ["ok"]
     for ci, cal in enumerate(scn["callers"]):
         lines.append(f"thread {ci}"); outs.append("ok")
+    for o in range(len(homes)):
+        lines.append(f"thread {WORKER_CALLER_BASE + o}"); outs.append("ok")
     for k in range(scn["contexts"]):
         lines.append(f"ctx {k}"); outs.append("ok")
     for o, h in enumerate(homes):
@@ -1275,6 +1456,16 @@ FIXED_SCENARIOS_RAW = [
                  {"ctx": 1, "acq": "byname", "prog": [["n", 0], ["n", 1], ["b", 0]]}]},
     # payloads of every size class the code distinguishes, followed by tiny calls of the same thread on the remote route
     "SIZED",
+    # callers of every thread kind: an RPC method that calls another object and ITS OWN object (worker thread as caller:
+    # non-blocking, then blocking with a short timeout; nested two deep), a QMI task thread, an event-loop callback
+    {"contexts": 2, "objects": [0, 1],
+     "callers": [{"ctx": 0, "prog": [["n", 0], ["R", 0, None, [["n", 0, []], ["n", 0, []], ["t", 0, []]]], ["b", 0]]},
+                 {"ctx": 1, "prog": [["n", 0], ["Rn", 1, None, [["n", 0, []], ["n", 1, []], ["t", 0, []], ["t", 1, []]]], ["n", 1], ["b", 1]]}]},
+    {"contexts": 2, "objects": [0, 1],
+     "callers": [{"ctx": 1, "prog": [["R", 0, None, [["n", 1, [["n", 0, []], ["n", 1, []], ["t", 0, []]]], ["n", 0, []], ["t", 1, []]]], ["b", 0], ["b", 1]]},
+                 {"ctx": 0, "kind": "task", "prog": [["n", 0], ["n", 1], ["b", 0], ["n", 1], ["b", 1]]},
+                 {"ctx": 1, "kind": "loop", "prog": [["n", 0], ["n", 1], ["n", 0], ["gn", 1]]},
+                 {"ctx": 0, "kind": "loop", "prog": [["n", 0], ["n", 0], ["sn", 0]]}]},
     # inherited standard methods interleaved with the probe's own method
     {"contexts": 2, "objects": [0], "callers": [{"ctx": 0, "prog": [["n", 0], ["gn", 0], ["n", 0], ["g", 0]]},
                                                  {"ctx": 1, "prog": [["n", 0], ["sn", 0], ["gn", 0], ["s", 0]]},
@@ -1493,7 +1684,7 @@ class C03(Prop):
             for op in cal["prog"]:
                 if op[0] == "w":
                     continue
-                res.count({"b": "calls_hit_blocking", "t": "calls_hit_blocking_with_tiny_timeout", "n": "calls_hit_nonblocking", "k": "calls_long_running_nonblocking", "g": "calls_get_name_blocking",
+                res.count({"b": "calls_hit_blocking", "t": "calls_hit_blocking_with_tiny_timeout", "n": "calls_hit_nonblocking", "k": "calls_long_running_nonblocking", "R": "calls_relay_blocking", "Rn": "calls_relay_nonblocking", "g": "calls_get_name_blocking",
                            "gn": "calls_get_name_nonblocking", "s": "calls_get_signals_blocking",
                            "sn": "calls_get_signals_nonblocking", "q": "calls_is_locked", "L": "calls_lock",
                            "U": "calls_unlock", "F": "calls_force_unlock", "P": "calls_returning_a_proxy",
